@@ -63,6 +63,9 @@ Proof.
   inversion H; subst. tauto.
 Qed.
 
+Lemma qholds_In s t : qholds s t = true <-> In t (map fst (qholders s)).
+Proof. unfold qholds. apply mem_tid_In. Qed.
+
 Lemma in_fst {A B} (a : A) (b : B) l : In (a, b) l -> In a (map fst l).
 Proof. intros H. apply (in_map fst) in H. exact H. Qed.
 
